@@ -217,7 +217,7 @@ def library_raised(exc):
         if "/gufo/snmp/" in fn and "/verif/py/" not in fn:
             where = "%s:%s" % (fn.split("/gufo/snmp/")[-1], last.tb_frame.f_code.co_name)
     mod = type(exc).__module__ or ""
-    if where is None and (mod.startswith("gufo.snmp") or type(exc).__name__ == "PanicException"):
+    if where is None and (mod.startswith("gufo.snmp") or type(exc).__name__ == "PanicException" or getattr(exc, "_from_extension", False)):
         where = "extension"
     if where is None:
         return None
